@@ -65,7 +65,7 @@ var _ *pb.SharedGroupProposal
 //@ modifies nothing
 
 //@ func github.com/coreos/etcd/raft.IsEmptySnap
-//@ props C03 C05
+//@ props C03 C05 C06
 //@ assume
 //@ pure
 //@ ensures [def] ret == (sp.Metadata.Index == 0)
